@@ -7,7 +7,7 @@ SYM = {
     "sp": " ", "tab": "\t", "lf": "\n", "cr": "\r", "crlf": "\r\n", "nbsp": " ",
     "ideo": "　", "ls": " ", "emsp": " ", "bom": "﻿",
     "a": "a", "b": "b", "c": "c", "amp": "&amp;", "nbspE": "&nbsp;", "spE": "&#32;", "lt": "&lt;",
-    "bs": "\\", "bsn": "\\n", "apos": "&apos;",
+    "bs": "\\", "bsn": "\\n", "apos": "&apos;", "lfE": "&#10;", "tabE": "&#9;",
     "w_checkbox": "checkbox", "w_radio": "radio", "w_text": "text", "w_number": "number",
 }
 
